@@ -549,4 +549,39 @@ theorem resample_origin (n : Int) (hn : 1 ≤ n) (m' n' : Int) (z0 z1 : Rat) :
 
 example : Model.C04.rollSrc 7 (resamplePre 7) 0 = 3 ∧ Model.C04.rollSrc 7 (resamplePost 7) 3 = 0 := by decide
 
+/-- zero padding does not move the spatial centroid of ANY data with non-zero total (not only a point source): the
+centre of mass moves by the pad offset, the reference index moves from `m // 2` to `M // 2`, and the two cancel for
+every parity combination — `centroid(pad2d(d), dx) = centroid(d, dx)` -/
+theorem centroid_pad_invariant (d : ℕ → ℕ → ℚ) (m n M N lo0 lo1 : ℕ) (hm : m ≤ M) (hn : n ≤ N)
+    (hl0 : (lo0 : Int) = padSliceLo m M) (hl1 : (lo1 : Int) = padSliceLo n N)
+    (ht : ∑ i ∈ Finset.range m, ∑ j ∈ Finset.range n, d i j ≠ 0) (dx : ℚ) :
+    centroidSpatialElem dx (comY (padded d m n lo0 lo1) M N) M = centroidSpatialElem dx (comY d m n) m ∧
+    centroidSpatialElem dx (comX (padded d m n lo0 lo1) M N) N = centroidSpatialElem dx (comX d m n) n := by
+  obtain ⟨a0, a1, a2, a3⟩ := pad_slice_in_bounds (m : Int) (M : Int) (by omega) (by exact_mod_cast hm)
+  obtain ⟨b0, b1, b2, b3⟩ := pad_slice_in_bounds (n : Int) (N : Int) (by omega) (by exact_mod_cast hn)
+  have h0 : lo0 + m ≤ M := by
+    have : (lo0 : Int) + m ≤ M := by omega
+    exact_mod_cast this
+  have h1 : lo1 + n ≤ N := by
+    have : (lo1 : Int) + n ≤ N := by omega
+    exact_mod_cast this
+  obtain ⟨hy, hx⟩ := com_padded d m n M N lo0 lo1 h0 h1 ht
+  have c0 : ((((M : Int) / 2 : Int)) : ℚ) = (lo0 : ℚ) + ((((m : Int) / 2 : Int)) : ℚ) := by
+    have : (M : Int) / 2 = (lo0 : Int) + (m : Int) / 2 := by omega
+    rw [this]; push_cast; ring
+  have c1 : ((((N : Int) / 2 : Int)) : ℚ) = (lo1 : ℚ) + ((((n : Int) / 2 : Int)) : ℚ) := by
+    have : (N : Int) / 2 = (lo1 : Int) + (n : Int) / 2 := by omega
+    rw [this]; push_cast; ring
+  constructor
+  · rw [(centroid_return _ _ _).1, (centroid_return _ _ _).1, hy, c0]; ring
+  · rw [(centroid_return _ _ _).1, (centroid_return _ _ _).1, hx, c1]; ring
+
+/-- the hypotheses of `centroid_pad_invariant` are met by a concrete pad (3×3 → 6×7, even and odd targets) -/
+example : ((2 : ℕ) : Int) = padSliceLo (3 : ℕ) (6 : ℕ) ∧ ((2 : ℕ) : Int) = padSliceLo (3 : ℕ) (7 : ℕ) ∧
+    ∑ i ∈ Finset.range 3, ∑ j ∈ Finset.range 3, delta 1 1 3 i j ≠ 0 := by
+  refine ⟨by decide, by decide, ?_⟩
+  rw [show (∑ i ∈ Finset.range 3, ∑ j ∈ Finset.range 3, delta 1 1 3 i j) = 3 from by
+    simpa using sum_delta (fun _ _ => 1) 3 3 1 1 (by decide) (by decide) 3]
+  norm_num
+
 end C04
